@@ -229,6 +229,7 @@ def roundtrip_round(rep, pid, cases, tier):
             if c['ents']:
                 rep.nontriv([c, dim])
             rep.sample({'suite': 'roundtrip', 'case': c, 'dim': dim}, cap=3)
+            back = None
             try:
                 pieces = [ext.get_subset(dim, i) for i in range(shape[dim])]
                 back = m.DcmMetaExtension.from_sequence(pieces, dim)
@@ -252,9 +253,8 @@ def roundtrip_round(rep, pid, cases, tier):
                         break
             except Exception as e:
                 fails = ['split/merge raised %r' % e]
-                back = None
-                err_ = repr(e)
-                st_ = SM.exc_kind(e)
+                err_ = repr(e)          # `back` stays what from_sequence returned, if it returned: a later step of the
+                st_ = SM.exc_kind(e)    # round trip (splitting or reading the merged extension) may be what raised
             if fails and region == 'roundtrip:subset:time:5D':
                 # attribute to F3 only what behaves as recorded (see `as_recorded_f3`)
                 ag_ = None
